@@ -17,7 +17,8 @@ RULE = ("random scripts of 4-40 segments over 1-6 interleaved flows (tuples diff
         "distinct abstract scripts (per step: flow, flags, ack class, length class, outcome).")
 ASSUME = ["the cookie of a flow is whatever sequence number the responder puts in the SYN-ACK of a probe SYN on that flow",
           "flows whose cookie is 0x00000000 / 0xFFFFFFFF (so that cookie+1 wraps to 0) come from witnesses.json (brute-forced offline under the assumption that the cookie is SipHash-2-4 of the tuple; re-validated by a probe SYN at run time and skipped if stale)",
-          "segments combining RST with PSH|ACK are not generated (the statement does not decide them)"]
+          "segments combining RST with PSH|ACK are not generated (the statement does not decide them)",
+          "a FIN|ACK / ACK / RST segment that carries payload but no PSH is judged like the bare one (FIN|ACK: answered, acknowledging sequence + 1; the others: silence), which is what the reference connection model does"]
 
 KNOWN_COLLISION = "cookie-collision"
 
@@ -115,7 +116,10 @@ def script(ctx, cfg, model, cookies):
         if act < 0.22:
             fl = rng.choice([ACK, RST, RST | ACK, FIN | ACK, FIN | ACK])
             q_ack = rng.choice([s["peer"], rng.getrandbits(32), 0] + ([(cookies[f_id] + 1) & 0xFFFFFFFF] * 2 if f_id in cookies else []))
-            f = fe.tcp(fsp, fdp, s["seq"], q_ack, fl)
+            # control segments may carry bytes too (a FIN|ACK with the last few bytes but without PSH, a RST with a
+            # diagnostic string): a segment without PSH is no data segment, its payload is not acknowledged
+            cpl = bytes(rng.getrandbits(8) for _x in range(rng.choice([1, 5, 18, 100]))) if rng.random() < 0.25 else b""
+            f = fe.tcp(fsp, fdp, s["seq"], q_ack, fl, cpl)
             r = ctx.send(f)
             q = pkt.parse(f)
             errs = []
